@@ -27,7 +27,7 @@ func init() {
 	register(&Property{
 		ID:    "C21",
 		Level: "exploration",
-		Rule: "cases = 2..6 overlapping patterns (exact, swamp-wildcard, realm-wildcard) over 2 realms x 3 swamps of one sanctuary with distinct settings, registered in seeded order with re-registrations and de-registrations; each case is replayed under 6 map-iteration permutations x 2 registration orders x {no restart, restart}; " +
+		Rule: "cases = 2..6 overlapping patterns (exact, swamp-wildcard, realm-wildcard) over 2 realms x 3 swamps of one sanctuary with distinct settings, registered in seeded order with re-registrations, de-registrations and lookups of concrete names in between; each case is replayed under 6 map-iteration permutations x 2 registration orders x {no restart, restart}; " +
 			"non-trivial = at least two registered patterns match one queried name; distinct = hash of (pattern set, settings, query answers)",
 		Gen: genC21,
 		Run: runC21,
@@ -48,6 +48,11 @@ func genC21(seed uint64, tier string) Case {
 	for i := 0; i < n; i++ {
 		re, sw := int64(r.intn(3)), int64(r.intn(4))
 		c.Ops = append(c.Ops, Op{K: "reg", A: []int64{re, sw, int64(r.intn(2)), int64(1 + r.intn(50)), int64(1 + r.intn(20))}})
+		if r.chance(1, 3) {
+			// a lookup in the middle of the history (a swamp is summoned while the patterns still change): what it
+			// saw must not influence what later lookups answer
+			c.Ops = append(c.Ops, Op{K: "look", A: []int64{int64(r.intn(2)), int64(r.intn(3))}})
+		}
 		if r.chance(1, 6) {
 			c.Ops = append(c.Ops, Op{K: "dereg", A: []int64{int64(r.intn(3)), int64(r.intn(4))}})
 		}
@@ -92,6 +97,8 @@ func c21Scenario(c Case, permSeed uint64, reverse bool, restart bool) (map[strin
 			st.RegisterPattern(p, op.A[2] == 1, op.A[3], fss)
 		case "dereg":
 			st.DeregisterPattern(p)
+		case "look":
+			st.GetBySwampName(p)
 		}
 	}
 	if restart {
@@ -131,6 +138,9 @@ func runC21(t *testing.T, c Case) (res Result) {
 	}
 	final := map[string]pat{}
 	for _, op := range c.Ops {
+		if op.K == "look" {
+			continue
+		}
 		k := c21Realms[op.A[0]] + "/" + c21Swamps[op.A[1]]
 		switch op.K {
 		case "reg":
